@@ -244,7 +244,7 @@ class VFG(object):
             for a in self.res.ev(fi, node.value):
                 if a[0] == "C":
                     ci = self.prog.classes.get(a[1])
-                    if ci is not None and node.attr in ci.methods and (a[1], node.attr) not in self.res.field:
+                    if ci is not None and node.attr in ci.methods and (a[1], node.attr) not in self.res.stored_fields:
                         continue
                     self._edge(key, ("f", a[1], node.attr), "copy", "load")
                     typed = True
